@@ -116,6 +116,8 @@ def strategy(tier):
             "scaling": draw(st.one_of(st.none(), st.sampled_from([0.0, 0.0, 0.3, 0.5, 0.9]),
                                       st.floats(0.0, 0.99, allow_nan=False).map(lambda v: round(v, 4)))),
             "steps": draw(st.lists(step, min_size=1, max_size=6 if big else 4)),
+            # AggScaling accepts `which` in any letter case ('min' / 'Min' / 'MAX' ...)
+            "spell": draw(st.sampled_from(["lower", "lower", "title", "upper"])),
         }
     return case()
 
@@ -280,6 +282,7 @@ def check_case(case):
     pfacs = [float(st_.get("pfac", 1.0)) for st_ in case["steps"]]
     par = effective_param(agg, case["param"] * max(pfacs), datas) / max(pfacs)    # every par*pfac stays below the overflow limit
     which = "max" if par > 0 else "min"
+    which_arg = {"lower": which, "title": which.title(), "upper": which.upper()}[case.get("spell", "lower")]
     labels = [agg, "param_pos" if par > 0 else "param_neg", f"steps{min(len(datas), 3)}{'+' if len(datas) > 3 else ''}"]
     if act is not None:
         labels.append("active_set")
@@ -289,6 +292,8 @@ def check_case(case):
             labels.append("act_amt")
     if damping is not None:
         labels += ["scaling", "damped" if damping > 0 else "undamped"]
+        if which_arg != which:
+            labels.append("which_not_lowercase")
     if any(x.size >= 2 and x.min() != x.max() for x in datas):
         labels.append("nonconstant_n2")
     if any(x.size == 1 for x in datas):
@@ -334,7 +339,7 @@ def check_case(case):
     try:
         s_full = pym.Signal("x")
         m_full = cls(s_full, **{key: par}, active_set=None if act is None else pym.AggActiveSet(*act),
-                     scaling=None if damping is None else pym.AggScaling(which, damping=damping))
+                     scaling=None if damping is None else pym.AggScaling(which_arg, damping=damping))
     except Exception as e:
         bad(f"raises:init:{type(e).__name__}", repr(e))
         return sorted(set(labels)), V
